@@ -23,7 +23,7 @@ BASE_PROFILE = dict(
     w_struct=dict(leaf=5, tuple=2, list=3, dict=1.5),
     ctxs=["actx", "ov", "attr"],
     try_kinds=["exc", "exc", "base", "none"],
-    exc_cls=["exc", "exc", "exc", "base", "falsy", "frozen", "tasky"],
+    exc_cls=["exc", "exc", "exc", "base", "falsy", "frozen", "tasky", "cached"],
     styles=["asynq", "asynq", "asynq", "pure", "method", "classmethod", "staticmethod", "proxy"],
     plain_styles=["plain", "plain", "pureplain"],
     p_reuse=0.15,
@@ -479,6 +479,64 @@ def revisit_program(rnd):
         "nodes": nodes,
         "root": 0,
         "shared": [5],
+        "kinds": 2,
+        "faults": {},
+        "flush_faults": {},
+        "defaults": {"sv0": "dflt-sv0", "sv1": "dflt-sv1", "at0": "dflt-at0"},
+    }
+
+
+def recatch_program(rnd, leafs=("none", "const")):
+    """A structured family: ONE error object (a cached / module-level failure) is raised by several children and
+    caught again and again by the same, still running, body - which goes on awaiting after each catch."""
+    site = [0]
+
+    def st(prefix):
+        site[0] += 1
+        return "%s%d" % (prefix, site[0])
+
+    def filler():
+        k = rnd.choice(leafs)
+        if k == "none":
+            return ["leaf", ["none"]]
+        if k == "item":
+            return ["leaf", ["item", rnd.randrange(2), st("k")]]
+        return ["leaf", ["const", rnd.choice([0, 1, "x"])]]
+
+    nodes = [{"style": "asynq", "ret": "return", "body": []}]
+
+    def raiser(depth):
+        nid = len(nodes)
+        nodes.append({"style": rnd.choice(["asynq", "asynq", "method", "proxy", "pure"]), "ret": "return", "body": []})
+        body = []
+        if rnd.random() < 0.5:
+            body.append(["yield", filler()])
+        if depth > 0 and rnd.random() < 0.5:
+            inner = raiser(depth - 1)
+            body.append(["yield", ["leaf", ["call", st("c"), inner]]])
+        else:
+            body.append(["raise", st("r"), "cached"])
+        nodes[nid]["body"] = body
+        return nid
+
+    root = []
+    for _ in range(rnd.randint(2, 4)):
+        members = [["leaf", ["call", st("c"), raiser(rnd.randrange(3))]]]
+        if rnd.random() < 0.4:
+            members.insert(rnd.randrange(2), filler())
+        struct = members[0] if len(members) == 1 and rnd.random() < 0.5 else [rnd.choice(["list", "tuple"]), members]
+        handler = [["yield", filler()]] if rnd.random() < 0.5 else []
+        root.append(["try", [["yield", struct]], "exc", handler, []])
+        if rnd.random() < 0.4:
+            root.append(["yield", filler()])
+    root.append(["yield", filler()])
+    if rnd.random() < 0.3:
+        root.append(["raise", st("r"), "cached"])
+    nodes[0]["body"] = root
+    return {
+        "nodes": nodes,
+        "root": 0,
+        "shared": [],
         "kinds": 2,
         "faults": {},
         "flush_faults": {},
